@@ -6,12 +6,26 @@ CHECK = {'level': 'exploration',
          'events, nested context-level and store-level snapshot/restore, success or failure; scripted hooks at all four hook points; dry-run '
          'execute/commit; expected-root and abandon/crash variants), compared after every ABI call with a map model and a naive LIP-0039 '
          'sparse-Merkle reference. Non-trivial = history containing a failing command that set a new key, overwrote one, deleted one and emitted '
-         'both event kinds, or a committed block that deletes a key which existed before the block. Distinct by digest of the whole history',
+         'both event kinds, or a committed block that deletes a key which existed before the block. Second family (TestC16Reorgs, same '
+         'oracle): histories built around chain reorganisations - 0-2 prefix blocks, then 1-3 episodes of: remove k = 1-4 blocks (Revert '
+         'with/without expected root and/or restart recovery with the engine 1..k blocks behind, restarts at distance 0 in between), apply '
+         'a different branch of k or k+1 blocks, then nothing / revert the tip / restart with the engine 0-4 blocks behind / remove the new '
+         'branch and return to the blocks removed first; finally (2 of 3) a descent Revert/recovery through up to all heights. Branch blocks '
+         'are state-neutral with probability 0.3-0.7 at every position (empty; reads and events only; every transaction writes and fails; a '
+         'key written back to its current value from a command or any hook; writes that cancel out: set+delete of a new key in one program, '
+         'in two transactions, in before/after hooks, snapshot-set-restore, delete+set-back, overwrite+set-back), else a light block (1-3 '
+         'writes from 1-2 places, sometimes beside a failing transaction) or a block of the general generator. For these histories '
+         'non-trivial additionally = a reorganisation of depth >= 2 together with the removal of a state-neutral block. Labels count the '
+         'removals (Revert / recovery) of a state-neutral block at a height that previously held a state-changing block of an abandoned '
+         'branch, reorg depths, removals at heights that saw 2+/3+ blocks. Distinct by digest of the whole history',
  'level_text': 'Model-based test of transaction atomicity and state-root derivation: after every ExecuteTransaction the response events '
                '(identity, order, indexes, standard event) and the staged state (reads inside programs + full probe) must equal the model; after '
                'every Commit/Revert/Init the state DB dump, the returned root (= reference sparse-Merkle root over the live keys with tree key = '
-               'store prefix || SHA256(key), value = SHA256(value)) and the tree-state record must equal the model / the engine tip.',
- 'level_note': 'Sampled histories over a small key/value universe (2 stores x 5 keys x 6 values); Iterate/Range of the staged store are left to C12; '
+               'store prefix || SHA256(key), value = SHA256(value)) and the tree-state record must equal the model / the engine tip - also '
+               'across reorganisations 1-4 blocks deep with state-neutral blocks, where records kept per height for abandoned blocks (diffs) '
+               'must not influence a later Revert or recovery; Revert returns exactly the root before the block.',
+ 'level_note': 'Sampled histories over a small key/value universe (2 stores x 5 keys x 6 values), reorganisations up to 4 blocks deep, recoveries '
+               'up to 4 blocks deep, Finalize (diff pruning) not called; Iterate/Range of the staged store are left to C12; '
                'reference SMT cross-checked against the real trie (TestRefSMTAgainstTrie).',
  'technique': 'property-based stateful testing (rapid) against a map model + reference sparse Merkle tree',
  'assumptions': ['snapshot/restore semantics = one overlay shared by all store handles (model in harness/c16/model_test.go)',
@@ -19,6 +33,8 @@ CHECK = {'level': 'exploration',
                  'hook events lie outside the command snapshot and are always kept',
                  'ExecuteTransaction requests carry a Consensus message in generated histories (the in-process callers omit it: finding C16-F5)'],
  'quick': [{'pkg': 'c16', 'run': 'TestC16Histories|TestRegress', 'checks': 4000, 'timeout': 900},
-           {'pkg': 'c16', 'run': 'TestRefSMTAgainstTrie', 'checks': 400, 'timeout': 300}],
+           {'pkg': 'c16', 'run': 'TestRefSMTAgainstTrie', 'checks': 400, 'timeout': 300},
+           {'pkg': 'c16', 'run': 'TestC16Reorgs', 'checks': 1500, 'timeout': 900}],
  'thorough': [{'pkg': 'c16', 'run': 'TestC16Histories|TestRegress', 'checks': 25000, 'shards': 15, 'timeout': 2400},
-              {'pkg': 'c16', 'run': 'TestRefSMTAgainstTrie', 'checks': 5000, 'shards': 1, 'timeout': 2400}]}
+              {'pkg': 'c16', 'run': 'TestRefSMTAgainstTrie', 'checks': 5000, 'shards': 1, 'timeout': 2400},
+              {'pkg': 'c16', 'run': 'TestC16Reorgs', 'checks': 12000, 'shards': 6, 'timeout': 2400}]}
